@@ -1,4 +1,5 @@
 import FsnVerif.Proofs.InvLemmas
+import FsnVerif.Proofs.KernelInv
 /-!
 # C12 — Kernel watches and bookkeeping stay in step (model side)
 
@@ -105,5 +106,108 @@ example :
     s3.1.watchList = [[100, 49]] ∧ s3.2.2.sys.contains (Sys.rmWatch 2) = true ∧
     (s3.1.remove (kern []) [108, 48]).2.2.ret = some Err.nonExistentWatch ∧
     (s3.1.remove (kern []) [108, 48]).2.2.panic = false := by decide
+
+/-!
+## Library and kernel together (`Model/Kernel`)
+
+The kernel side of one inotify instance — its marks, its notification queue, the order in which it
+hands out descriptors — is modelled next to the library, and the statement of C12 becomes a theorem
+about every joint state reachable by `Add` / `Remove` calls (with the kernel answering an error,
+the inode's existing descriptor or a fresh one), kernel notifications about live marks, marks dying
+with their inode or file system, and the reader working through the queue in order. Queue overflow
+is outside this model (it discards `IN_IGNORED` records; see C01/C10).
+-/
+namespace Joint
+open Kern
+
+/-- **no orphaned kernel watch, ever**: at every moment every mark of the instance is known to the
+library (the kernel watch of a removed or re-pointed path is released in the same call) -/
+theorem no_orphan_mark {j : J} (h : Reach j) (wd : Nat) (hm : wd ∈ j.marks) : alHas wd j.lib.wdT = true :=
+  (reach_agree h).mark_known wd hm
+
+/-- every descriptor the library knows has a live mark, or the record that ends it is already queued -/
+theorem entry_backed {j : J} (h : Reach j) (wd : Nat) (hk : alHas wd j.lib.wdT = true) :
+    wd ∈ j.marks ∨ ∃ r, r ∈ j.queue ∧ r.wd = wd ∧ gone r.mask = true :=
+  (reach_agree h).known_backed wd hk
+
+/-- **quiescent agreement**: once the queue has been read to the end, the kernel's marks are exactly
+the descriptors in the library's table -/
+theorem quiescent_agree {j : J} (h : Reach j) (hq : j.queue = []) (wd : Nat) :
+    wd ∈ j.marks ↔ alHas wd j.lib.wdT = true := by
+  constructor
+  · exact no_orphan_mark h wd
+  · intro hk
+    rcases entry_backed h wd hk with h1 | ⟨r, hr, _, _⟩
+    · exact h1
+    · rw [hq] at hr; cases hr
+
+/-- … and hence exactly the watches behind `WatchList`: every listed path has a live mark, every
+live mark belongs to exactly one listed path -/
+theorem quiescent_watchlist {j : J} (h : Reach j) (hq : j.queue = []) :
+    (∀ p, p ∈ j.lib.watchList → ∃ wd, alLookup p j.lib.pathT = some wd ∧ wd ∈ j.marks) ∧
+    (∀ wd, wd ∈ j.marks → ∃ p, p ∈ j.lib.watchList ∧ alLookup p j.lib.pathT = some wd ∧
+      ∀ q, alLookup q j.lib.pathT = some wd → q = p) := by
+  have a := reach_agree h
+  constructor
+  · intro p hp
+    unfold Lib.watchList at hp
+    have : ∃ wd, alLookup p j.lib.pathT = some wd := by
+      cases hl : alLookup p j.lib.pathT with
+      | some wd => exact ⟨wd, rfl⟩
+      | none => exact absurd hp (not_mem_keys_of_lookup_none hl)
+    obtain ⟨wd, hwd⟩ := this
+    obtain ⟨w, hw, _, _⟩ := a.inv.fwd p wd hwd
+    exact ⟨wd, hwd, (quiescent_agree h hq wd).mpr (by simp [alHas, hw])⟩
+  · intro wd hm
+    have hk := no_orphan_mark h wd hm
+    obtain ⟨w, hw⟩ : ∃ w, alLookup wd j.lib.wdT = some w := by
+      unfold alHas at hk
+      cases hl : alLookup wd j.lib.wdT with
+      | some w => exact ⟨w, rfl⟩
+      | none => rw [hl] at hk; cases hk
+    obtain ⟨_, hp⟩ := a.inv.bwd wd w hw
+    refine ⟨w.path, mem_keys_of_lookup hp, hp, ?_⟩
+    intro q hq'
+    obtain ⟨w', hw', hwp, _⟩ := a.inv.fwd q wd hq'
+    rw [hw] at hw'; injection hw' with hw'; subst hw'; exact hwp.symm
+
+/-- usage is bounded by the live watches: never more marks than table entries -/
+theorem marks_bounded {j : J} (h : Reach j) : j.marks.length ≤ j.lib.wdT.length := by
+  have a := reach_agree h
+  have hsub : ∀ x, x ∈ j.marks → x ∈ j.lib.wdT.map (·.1) := by
+    intro x hx
+    have := a.mark_known x hx
+    unfold alHas at this
+    cases hl : alLookup x j.lib.wdT with
+    | some w => exact mem_keys_of_lookup hl
+    | none => rw [hl] at this; cases this
+  have key : ∀ (l m : List Nat), l.Nodup → (∀ x, x ∈ l → x ∈ m) → l.length ≤ m.length := by
+    intro l
+    induction l with
+    | nil => intro m _ _; exact Nat.zero_le _
+    | cons a l ih =>
+      intro m hnd hs
+      have ha : a ∈ m := hs a (by simp)
+      obtain ⟨hal, hl⟩ := List.nodup_cons.mp hnd
+      have hs' : ∀ x, x ∈ l → x ∈ m.erase a := by
+        intro x hx
+        have hne : x ≠ a := fun e => hal (e ▸ hx)
+        exact (List.mem_erase_of_ne hne).mpr (hs x (List.mem_cons_of_mem _ hx))
+      have := ih (m.erase a) hl hs'
+      rw [List.length_erase_of_mem ha] at this
+      have hpos : 0 < m.length := List.length_pos_of_mem ha
+      simp only [List.length_cons]
+      omega
+  have := key j.marks (j.lib.wdT.map (·.1)) a.nodup hsub
+  simpa using this
+
+/-! non-vacuity: `Add(d)` (fresh mark 1), a change in `d`, `d` is deleted, the reader catches up -/
+def jAdd : J := step {} (.add [100] 0x1f#32 false .fresh)
+def jDone : J := step (step (step (step (step jAdd (.note { wd := 1, mask := IN_CREATE, cookie := 0#32, len := 16, name := [97] })) (.kill 1 false)) .read) .read) .read
+
+example : jAdd.marks = [1] ∧ jAdd.lib.watchList = [[100]] ∧ (1 ∈ jAdd.marks) := by decide
+example : jDone.queue = [] ∧ jDone.marks = [] ∧ jDone.lib.watchList = [] ∧ jDone.next = 2 := by decide
+
+end Joint
 
 end C12
